@@ -44,8 +44,6 @@ val forallb : ('a1 -> bool) -> 'a1 list -> bool
 
 val filter : ('a1 -> bool) -> 'a1 list -> 'a1 list
 
-val list_prod : 'a1 list -> 'a2 list -> ('a1 * 'a2) list
-
 val nodup : ('a1 -> 'a1 -> bool) -> 'a1 list -> 'a1 list
 
 val list_sum : nat list -> nat
@@ -89,6 +87,14 @@ val saturate :
   ('a1 -> 'a1 -> bool) -> ('a1 list -> 'a1 list) -> nat -> 'a1 list -> 'a1
   list
 
+val saturate2b :
+  ('a1 -> 'a1 -> bool) -> ('a1 list -> 'a1 list) -> nat -> 'a1 list -> 'a1
+  list * bool
+
+val saturate2 :
+  ('a1 -> 'a1 -> bool) -> ('a1 list -> 'a1 list) -> nat -> 'a1 list -> 'a1
+  list
+
 val states : ta -> n list
 
 val prod_step : ta -> n list -> n list
@@ -112,10 +118,6 @@ val lookup : mp list -> n -> n list list
 val choices : mp list -> n list -> n list list list
 
 val mstep : ta -> ta -> mp list -> mp list
-
-val sublists : n list -> n list list
-
-val universe : ta -> ta -> mp list
 
 val macro_reach : ta -> ta -> mp list
 
